@@ -114,11 +114,11 @@ where
         let mut curves = vec![];
 
         // Divide up the points into blocks containing MAX_POINTS_TO_FIT items
-        let num_blocks = ((points.len()-1) / max_points_to_fit)+1;
+        let num_blocks = ((points.len()-2) / (max_points_to_fit-1))+1;
 
         for point_block in 0..num_blocks {
-            // Pick the set of points that will be in this block
-            let start_point     = point_block * max_points_to_fit;
+            // Pick the set of points that will be in this block (blocks share their boundary point so the result is connected)
+            let start_point     = point_block * (max_points_to_fit-1);
             let mut num_points  = max_points_to_fit;
 
             if start_point+num_points > points.len() {
